@@ -43,6 +43,10 @@ func (t *token) String() string {
 	if len(t.Tokens) > 0 {
 		var tt []string
 		for _, v := range t.Tokens {
+			if v == nil {
+				tt = append(tt, "<missing>")
+				continue
+			}
 			tt = append(tt, v.String())
 		}
 		return fmt.Sprintf("(%v %v)", t.Text, strings.Join(tt, " "))
